@@ -162,10 +162,14 @@ fn exact_guard(rng: &mut Rng) -> (T, T) {
 /// body costs: an aware node must reject it (or, for an unknown extension, charge the declared cost),
 /// whatever hard-fork flags are set
 fn misdeclared_guard(rng: &mut Rng) -> (T, T) {
-    let body = match rng.below(3) {
+    let body = match rng.below(6) {
         0 => quote(int(42)),
         1 => call(16, vec![quote(int(1)), quote(int(2))]),
-        _ => call(11, vec![quote(atom(b"abc"))]),
+        2 => call(11, vec![quote(atom(b"abc"))]),
+        // a guarded program that is a bare atom: nil, or a path into the guard's environment
+        3 => atom(&[]),
+        4 => int(1),
+        _ => int(*rng.pick(&[2i128, 3, 5])),
     };
     let ext = *rng.pick(&[0i128, 1, 1, 2]);
     let declared = 100 + rng.below(2000);
@@ -363,6 +367,33 @@ pub fn oracle(name: &str, rng: &mut Rng, n: usize, tier: &str) -> OracleReport {
             (trees::from_hex(w[6]).unwrap(), T::nil())
         } else if (name == "repr" && i % 4 == 3) || (name == "total" && i % 5 == 4) {
             gc_pair_program(rng)
+        } else if name == "repr" && i % 16 == 0 {
+            // sums / products that carry into a new byte that neither the accumulator nor the operand had:
+            // where "size before" and "size after" the step differ
+            let cases: [&[i128]; 9] = [&[0xff, 1], &[0x80, 0x80], &[200, 100], &[0xffff, 1], &[0x8000, 0x8000], &[0xffffff, 1], &[0x7f, 0x7f, 0x7f], &[0x10, 0x10], &[-0x80, -1]];
+            let c = *rng.pick(&cases);
+            let op = *rng.pick(&[16u8, 16, 17, 18]);
+            (call(op, c.iter().map(|v| quote(int(*v))).collect()), T::nil())
+        } else if name == "repr" && i % 8 == 0 {
+            // operands at the byte boundaries of the small-integer fast paths, re-tagged below
+            let lines: Vec<String> = progs::generate_op_fastpath(rng, 0, "quick")
+                .into_iter()
+                .filter(|l| l.contains(" op_add ") || l.contains(" op_subtract ") || l.contains(" op_multiply ") || l.contains(" op_gr "))
+                .collect();
+            let l = &lines[rng.below(lines.len() as u64) as usize];
+            let w: Vec<&str> = l.split(' ').collect();
+            let code: u8 = match w[2] {
+                "op_add" => 16, "op_subtract" => 17, "op_multiply" => 18, "op_div" => 19, "op_divmod" => 20, "op_gr" => 21, "op_ash" => 22,
+                "op_lsh" => 23, "op_logand" => 24, "op_logior" => 25, "op_logxor" => 26, "op_lognot" => 27, "op_mod" => 61, _ => 16,
+            };
+            let args = trees::from_hex(w[5]).unwrap_or(T::nil());
+            let mut items = vec![];
+            let mut cur = &args;
+            while let T::Pair(a, b) = cur {
+                items.push(quote((**a).clone()));
+                cur = b;
+            }
+            (call(code, items), T::nil())
         } else if (name == "hide" && i % 5 == 3) || (name == "repr" && i % 8 == 4) {
             exact_guard(rng)
         } else if name == "repr" && i % 4 == 2 {
@@ -387,6 +418,7 @@ pub fn oracle(name: &str, rng: &mut Rng, n: usize, tier: &str) -> OracleReport {
         }
         let flags = match name {
             "repr" if i % 4 == 3 => random_flags(rng) | ENABLE_GC,
+            "repr" if i % 8 == 0 => *rng.pick(&[0u32, NEW_COST_MODEL, NEW_COST_MODEL, NEW_COST_MODEL | 0x1000]),
             "repr" if i % 8 == 4 => *rng.pick(&[0x1u32, 0x217, 0x3, 0x11]), // exact_guard(): cost for the old model
             "total" if i % 5 == 4 => random_flags(rng) | ENABLE_GC,
             "hide" if i % 5 == 3 => *rng.pick(&[0u32, ENABLE_GC, ENABLE_GC | 0x10, 0x100]), // exact_guard(): cost for the old model
